@@ -47,7 +47,7 @@ var engineBProps = map[string]*engineB{
 	"C13": {design: "4/C13", fine: []string{"bus/signal.go", "bus/proxy.go", "bus/client.go"}},
 	"C14": {design: "4/C14", fine: []string{"bus/object.go"}},
 	"C15": {design: "4/C15", fine: []string{"bus/directory/directory.go"}},
-	"C16": {design: "4/C16", fine: []string{"bus/service.go"}},
+	"C16": {design: "4/C16", fine: []string{"bus/service.go", "bus/service_reference.go"}},
 	"C17": {design: "4/C17"},
 	"C19": {design: "4/C19", fine: []string{"bus/session/session.go"}},
 }
